@@ -229,6 +229,17 @@ def run(tier, seed, replay=None):
             ncells += len(cells)
             recs.append({"id": rid, "kind": kind, "obj": o or ["none", 0], "len": ln, "base": base,
                          "lows": LOWS[lname][0], "row": rows.add(cells), "rb": rb})
+        if replay is None:
+            # decoding while another thread is half way through the first-ever call (fresh interpreters)
+            from . import coldrace
+            probes, npre = coldrace.probe()
+            out.extra["coldstart_preemption_points"] = npre
+            for k_, who, ln, vals, cells in probes:
+                lname = "race%d" % ln
+                lows(lname, vals)
+                ncells += len(cells)
+                recs.append({"id": len(recs) + 1, "kind": "from", "obj": ["none", 0], "len": ln, "base": 0,
+                             "lows": LOWS[lname][0], "row": rows.add(cells), "rb": 1, "race": [k_, who]})
         small = small_records(len(recs)) if replay is None or replay["case"].get("kind") in ("eq", "size", "sizefrom") else []
         if replay is not None and small:
             c = replay["case"]
